@@ -721,6 +721,22 @@ class Engine:
             return [(st1, ('raise', v))]
         return self.lift(self.ev(n.exc, st), k)
 
+    def s_With(self, n, st):
+        """with EXPR as NAME: body   (context managers modelled: the files returned by open(); __exit__ only closes the file)"""
+        if len(n.items) != 1:
+            raise OutOfReach('with statement with several items')
+        item = n.items[0]
+
+        def k(st1, v):
+            if not (isinstance(v, VRef) and getattr(st1.get(v), 'is_file', False)):
+                raise OutOfReach('with statement over %r' % (v,))
+            outs = self.assign(item.optional_vars, v, st1) if item.optional_vars is not None else [(st1, None)]
+            res = []
+            for s2, fl in outs:
+                res.extend(self.block(n.body, s2) if fl is None else [(s2, fl)])
+            return res
+        return self.lift(self.ev(item.context_expr, st), k)
+
     def s_Assign(self, n, st):
         def k(st1, v):
             outs = [(st1, None)]
